@@ -16,7 +16,7 @@ ASSUMPTIONS = ["scripts use codes (M300, M400) that are not themselves configure
 
 MENU = [("TRAVEL", "I1"), ("TRAVEL", "O2"), ("TRAVEL", "I2"), ("WIPE", "I1"),
         ("RAW", "G4 P100"), ("RAW", "M106 S255"), ("RAW", "M106 S0"), ("RAW", "M117 a"), ("RAW", "M117 b"),
-        ("RAW", "M204 S500"), ("RAW", "M204 T200"), ("RAW", "M204 S"), ("RAW", "M205 X5"), ("RAW", "M999"),
+        ("RAW", "M204 S500"), ("RAW", "M204 T200"), ("RAW", "M204 S"), ("RAW", "M204 S0"), ("RAW", "M205 X5"), ("RAW", "M999"),
         ("AT", "ExcludeRegion", "disable"), ("AT", "ExcludeRegion", "enable"),
         ("SCRIPT", "gcode", "afterPrintDone"), ("EV", "PRINT_CANCELLED"), ("NEWPRINT",)]
 
@@ -30,7 +30,7 @@ def scenarios(tier):
     out = []
     for name, en, ex in scripts:
         drop = {"none": (("RAW", "M106 S0"), ("RAW", "M204 S"), ("RAW", "M205 X5"), ("TRAVEL", "I2")),
-                "one": (("RAW", "M106 S0"), ("RAW", "M204 S"), ("RAW", "M205 X5"), ("TRAVEL", "I2")),
+                "one": (("RAW", "M106 S0"), ("RAW", "M204 S"), ("RAW", "M205 X5"), ("TRAVEL", "I2"), ("RAW", "M204 S0")),
                 "two": (("RAW", "M106 S0"), ("RAW", "M204 T200"), ("RAW", "M117 b"), ("TRAVEL", "I2"),
                         ("RAW", "G4 P100"))}[name]
         menu = MENU if not q else [e for e in MENU if e not in drop]
